@@ -113,3 +113,47 @@ Theorem C11_unwrap_destroys_only_its_own_object : forall (e : C_UnwrapKey.env),
   (forall o, In (T_OBJD, o) (snd (C_UnwrapKey.app e)) -> o = g h).
 Proof. exact unwrap_failure_undoes_success_commits. Qed.
 Print Assumptions C11_unwrap_destroys_only_its_own_object.
+
+(* ---- the handle manager itself (coq/Conc/HandleLife.v, tied to HandleManager.cpp by K-handle): handles die exactly
+   with what they denote, and a dead handle is never returned again, over every sequence of calls ---------------------- *)
+From SoftHSM Require HandleLife HandleLifeFacts.
+
+Theorem C11_manager_dead_handle_never_returned :
+  forall (xs : list HandleLife.op) (m : HandleLife.mgr) (h : N) (x : HandleLife.op),
+  0 < h -> h <= HandleLife.ctr m -> ~ HandleLife.live m h -> snd (HandleLife.step (HandleLife.run m xs) x) <> h.
+Proof. exact HandleLife.dead_handle_never_returned. Qed.
+Print Assumptions C11_manager_dead_handle_never_returned.
+
+Theorem C11_manager_destroy_exact : forall m h e,
+  In e (HandleLife.handles (fst (HandleLife.step m (HandleLife.DestroyObject h)))) <->
+  In e (HandleLife.handles m) /\ ((HandleLife.eh e =? h) && HandleLife.isobj e = false).
+Proof. exact HandleLifeFacts.destroy_exact. Qed.
+Print Assumptions C11_manager_destroy_exact.
+
+Theorem C11_manager_logout_exact : forall m slot e,
+  In e (HandleLife.handles (fst (HandleLife.step m (HandleLife.TokenLoggedOut slot)))) <->
+  In e (HandleLife.handles m) /\ (HandleLife.isobj e && (HandleLife.eslot e =? slot) && HandleLife.epriv e = false).
+Proof. exact HandleLifeFacts.logout_exact. Qed.
+Print Assumptions C11_manager_logout_exact.
+
+Theorem C11_manager_close_all_exact : forall m slot e,
+  In e (HandleLife.handles (fst (HandleLife.step m (HandleLife.AllSessionsClosed slot)))) <->
+  In e (HandleLife.handles m) /\ (HandleLife.eslot e =? slot) = false.
+Proof. exact HandleLifeFacts.all_closed_exact. Qed.
+Print Assumptions C11_manager_close_all_exact.
+
+Theorem C11_manager_session_closed_kills_its_objects : forall m h s e,
+  HandleLife.find_h h (HandleLife.handles m) = Some s -> HandleLife.issess s = true ->
+  In e (HandleLife.handles (fst (HandleLife.step m (HandleLife.SessionClosed h)))) ->
+  ~ (HandleLife.isobj e = true /\ HandleLife.esess e = h) /\ ~ (HandleLife.issess e = true /\ HandleLife.eh e = h).
+Proof. exact HandleLifeFacts.session_closed_kills_its_objects. Qed.
+Print Assumptions C11_manager_session_closed_kills_its_objects.
+
+Theorem C11_manager_session_closed_keeps_the_rest : forall m h s e,
+  HandleLife.find_h h (HandleLife.handles m) = Some s -> HandleLife.issess s = true ->
+  existsb (fun e' => HandleLife.issess e' && (HandleLife.eslot e' =? HandleLife.eslot s))
+          (HandleLife.handles (HandleLife.remove_where (fun e' => ((HandleLife.eh e' =? h) && HandleLife.issess e') || (HandleLife.isobj e' && (HandleLife.esess e' =? h))) m)) = true ->
+  In e (HandleLife.handles m) -> ((HandleLife.eh e =? h) && HandleLife.issess e) || (HandleLife.isobj e && (HandleLife.esess e =? h)) = false ->
+  In e (HandleLife.handles (fst (HandleLife.step m (HandleLife.SessionClosed h)))).
+Proof. exact HandleLifeFacts.session_closed_keeps_the_rest. Qed.
+Print Assumptions C11_manager_session_closed_keeps_the_rest.
